@@ -3,6 +3,9 @@ package srvlab
 import (
 	"bytes"
 	"fmt"
+	"io"
+	"log"
+	"os"
 	"runtime"
 	"time"
 
@@ -64,15 +67,20 @@ type c03variant struct {
 	slowWire bool
 	maxpend  int
 	procOps  bool
+	async    bool // the implementation's callbacks return at once; the answers are given later, from another goroutine
+	debug    bool // every debug facility of the server on
 }
 
 var c03variants = []c03variant{
-	{"gated", true, false, false, 0, false},
-	{"free", false, false, false, 0, false},
-	{"gated+delays", true, true, false, 0, false},
-	{"free+delays+slowwire", false, true, true, 0, false},
-	{"gated+slowwire+maxpend4", true, false, true, 4, false},
-	{"gated+delays+procops", true, true, false, 0, true},
+	{"gated", true, false, false, 0, false, false, false},
+	{"free", false, false, false, 0, false, false, false},
+	{"gated+delays", true, true, false, 0, false, false, false},
+	{"free+delays+slowwire", false, true, true, 0, false, false, false},
+	{"gated+slowwire+maxpend4", true, false, true, 4, false, false, false},
+	{"gated+delays+procops", true, true, false, 0, true, false, false},
+	{"async", false, false, false, 0, false, true, false},
+	{"async+delays+maxpend4", false, true, false, 4, false, true, false},
+	{"gated+debug", true, false, false, 0, false, false, true},
 }
 
 func c03Cases(tier string, seed int64) []core.Case {
@@ -822,6 +830,11 @@ func expectedReply(m *wire.Msg, plan *script.Plan, e script.Event, fidType uint8
 func c03Run(seed int64, n int, orders [][]int, v c03variant, dotu bool) core.Result {
 	var res core.Result
 	cfg := Config{Dotu: dotu, Msize: 8192, Maxpend: v.maxpend, TracePoints: false, ProcOps: v.procOps}
+	if v.debug {
+		cfg.Debug = go9p.DbgPrintFcalls | go9p.DbgPrintPackets | go9p.DbgLogFcalls | go9p.DbgLogPackets
+		log.SetOutput(io.Discard)
+		defer log.SetOutput(os.Stderr)
+	}
 	s := NewSess(cfg)
 	c := s.Dial()
 	r := core.NewRand(seed, fmt.Sprintf("c03run/%d/%s/%v", n, v.name, dotu))
@@ -949,6 +962,9 @@ func c03Run(seed int64, n int, orders [][]int, v c03variant, dotu bool) core.Res
 				q.plan.Gate = q.gate
 				q.plan.Entered = make(chan struct{})
 			}
+			if v.async {
+				q.plan.NoAnswer = true
+			}
 			s.Ops.SetPlan(c.ID, q.m.Tag, q.plan)
 			reqs[i] = q
 		}
@@ -1000,6 +1016,25 @@ func c03Run(seed int64, n int, orders [][]int, v c03variant, dotu bool) core.Res
 					}
 					return false
 				})
+			}
+		}
+		if v.async {
+			// every callback has returned without an answer; the answers come now, in the chosen order, from here
+			parked := waitFor(W, func() bool {
+				n := 0
+				for _, e := range s.Log.Snapshot(seq0) {
+					if e.Kind == "exit" && e.Info == "noanswer" {
+						n++
+					}
+				}
+				return n >= len(reqs)
+			})
+			if !parked {
+				fail(fmt.Sprintf("not-dispatched;n=%d;%s", n, v.name), "a request did not reach the implementation although no callback was blocking", nil)
+				break
+			}
+			for _, i := range order {
+				s.Ops.AnswerPending(c.ID, reqs[i].m.Tag)
 			}
 		}
 		// ---- barrier: nothing pending, sentinel through the single FIFO writer
